@@ -1,5 +1,5 @@
 """The recorded pass of the two experiments on independent changes (DESIGN §7.1, §8):
-   * seeded property-BREAKING changes (five rounds; stored as seeded/<id>-<A…J>/), which the target check must catch, and
+   * seeded property-BREAKING changes (six rounds; stored as seeded/<id>-<A…L>/), which the target check must catch, and
    * HARMLESS changes (two rounds; stored as harmless/<id>-<A…F>/), on which it must stay silent.
 
   python -m harness.campaign confirm [--jobs 8] [--labels IJ] [ids…]   phase A: every change is confirmed in its own scratch worktree of /repo
@@ -24,7 +24,7 @@ from concurrent.futures import ThreadPoolExecutor
 VERIF = os.path.dirname(os.path.dirname(os.path.abspath(__file__)))
 PY = "/venv/bin/python"
 TARGET = os.environ.get("SEED_REPO", "/repo")
-ROUNDS = (("seed", "AB", "AB"), ("seed2", "AB", "CD"), ("seed3", "AB", "EF"), ("seed4", "AB", "GH"), ("seed5", "AB", "IJ"))
+ROUNDS = (("seed", "AB", "AB"), ("seed2", "AB", "CD"), ("seed3", "AB", "EF"), ("seed4", "AB", "GH"), ("seed5", "AB", "IJ"), ("seed6", "AB", "KL"))
 HARM_ROUNDS = (("harm_inbox", "ABC", "ABC"), ("harm_inbox2", "ABC", "DEF"))
 ALL = ["C%02d" % i for i in range(1, 21)]
 
